@@ -31,11 +31,11 @@ import gen_structs  # noqa: E402
 PRELUDE = """#![allow(warnings)]
 use easy_ml::differentiation::iterators::{AsRecords, InconsistentHistory, InvalidRecordIteratorError};
 use easy_ml::differentiation::{Derivatives, Record, RecordContainer, RecordMatrix, RecordTensor, WengertList};
-use easy_ml::matrices::views::MatrixView;
+use easy_ml::matrices::views::{MatrixRange, MatrixView};
 use easy_ml::matrices::Matrix;
 use easy_ml::numeric::extra::{Cos, Exp, Ln, Pow, Sin, Sqrt};
 use easy_ml::tensors::indexing::TensorAccess;
-use easy_ml::tensors::views::{TensorRename, TensorView};
+use easy_ml::tensors::views::{TensorRange, TensorRename, TensorView};
 use easy_ml::tensors::Tensor;
 type R<'a> = Record<'a, f64>;
 type RT<'a> = RecordTensor<'a, f64, Tensor<(f64, usize), 2>, 2>;
@@ -399,6 +399,141 @@ def closure_rows(repo):
     return rows, unknown
 
 
+# ------------------------------------------------------------------------------------------
+# three-step probes: borrowed source x mutating method x result that outlives the source borrow
+# ------------------------------------------------------------------------------------------
+# Documented: a record container may be built with `from_existing` over a source that only BORROWS its
+# data (`&mut Tensor`, a range over `&mut RecordTensor`, …); every `&mut self` / `self` method may be
+# called on it; and whatever is then read out of it (records, a mapped container) is tied to the tape
+# `'a` only — it may leave the function in which the borrowed data lives.  The rows are synthesized from
+# the signatures (every `pub fn` of RecordTensor / RecordMatrix with a `&mut self` / `self` receiver or a
+# by-value `Self` parameter).
+
+SOURCES = {
+    "RT": [
+        ("owned", "let raw = Tensor::from([(\"r\", 2), (\"c\", 2)], vec![(1.0, 0usize); 4]);",
+         "RecordTensor::from_existing(Some(list), TensorView::from(raw))"),
+        ("mut_ref", "let mut raw = Tensor::from([(\"r\", 2), (\"c\", 2)], vec![(1.0, 0usize); 4]);",
+         "RecordTensor::from_existing(Some(list), TensorView::from(&mut raw))"),
+        ("range_over_mut_tensor", "let mut raw = Tensor::from([(\"r\", 2), (\"c\", 2)], vec![(1.0, 0usize); 4]);",
+         "RecordTensor::from_existing(Some(list), TensorView::from(TensorRange::from(&mut raw, [(\"r\", 0..1)]).unwrap()))"),
+        ("range_over_mut_container", "let mut all = mk_rt(list);",
+         "RecordTensor::from_existing(Some(list), TensorView::from(TensorRange::from(&mut all, [(\"r\", 0..1)]).unwrap()))"),
+    ],
+    "RM": [
+        ("owned", "let raw = Matrix::from(vec![vec![(1.0, 0usize); 2]; 2]);",
+         "RecordMatrix::from_existing(Some(list), MatrixView::from(raw))"),
+        ("mut_ref", "let mut raw = Matrix::from(vec![vec![(1.0, 0usize); 2]; 2]);",
+         "RecordMatrix::from_existing(Some(list), MatrixView::from(&mut raw))"),
+        ("range_over_mut_matrix", "let mut raw = Matrix::from(vec![vec![(1.0, 0usize); 2]; 2]);",
+         "RecordMatrix::from_existing(Some(list), MatrixView::from(MatrixRange::from(&mut raw, 0..1, 0..2)))"),
+        ("range_over_mut_container", "let mut all = mk_rm(list);",
+         "RecordMatrix::from_existing(Some(list), MatrixView::from(MatrixRange::from(&mut all, 0..1, 0..2)))"),
+    ],
+}
+EXTRACTS = {
+    "RT": [("record", "R<'a>", "c.index().get_as_record([0, 0])"),
+           ("records", "Vec<R<'a>>", "c.iter_as_records().collect()"),
+           ("mapped_container", "RT<'a>", "c.map(|r| r * 2.0).unwrap()")],
+    "RM": [("record", "R<'a>", "c.get_as_record(0, 0)"),
+           ("records", "Vec<R<'a>>", "c.iter_column_major_as_records().collect()"),
+           ("mapped_container", "RM<'a>", "c.map(|r| r * 2.0).unwrap()")],
+}
+
+
+def scan_mutating_methods(repo):
+    """signatures of every `pub fn` of RecordTensor / RecordMatrix that takes `&mut self`, `self`, or a
+    by-value `Self`"""
+    out = []
+    path = os.path.join(repo, M)
+    if not os.path.exists(path):
+        return out
+    t = gen_structs.strip_comments_and_strings(open(path).read())
+    headers = [(m.start(), m.group(1)) for m in re.finditer(r"\bimpl\s*<[^{;]*?>\s*(\w+)\s*<", t)]
+    for m in re.finditer(r"pub fn\s+(\w+)\s*(<[^(]*>)?\s*\(", t):
+        i = m.end() - 1
+        e = gen_structs.match_close(t, i, "(", ")")
+        params = [re.sub(r"\s+", " ", p).strip() for p in gen_structs.split_top(t[i + 1:e]) if p.strip()]
+        owner = None
+        for pos, name in headers:
+            if pos < m.start():
+                owner = name
+        if owner not in ("RecordTensor", "RecordMatrix") or not params:
+            continue
+        by_value_self = any(re.fullmatch(r"(mut )?\w+: Self", p) for p in params)
+        other_container = any(re.fullmatch(r"(mut )?\w+: (&mut )?Record(Tensor|Matrix)<'a,.*>", p) for p in params)
+        if params[0] in ("&mut self", "self", "mut self") or by_value_self or (params[0] == "&self" and other_container):
+            out.append({"file": M, "name": m.group(1), "owner": owner, "params": params,
+                        "line": t[:m.start()].count("\n") + 1})
+    return out
+
+
+def synthesize_step(sig):
+    """-> (kind, statement acting on / rebinding `c`) or None"""
+    kind = OWNER_KIND[sig["owner"]]
+    params = list(sig["params"])
+    args, ok = [], True
+    recv = None
+    if params[0] in ("&mut self", "self", "mut self", "&self"):
+        recv = params.pop(0)
+    rebinds = False
+    for p in params:
+        _pname, _, pty = p.partition(":")
+        pty = pty.strip()
+        m = re.fullmatch(r"impl\s+(Fn(?:Mut|Once)?)\s*\((.*)\)\s*->\s*(.*)", pty)
+        if m:
+            arg_tys = [a.strip() for a in gen_structs.split_top(m.group(2))]
+            names = [f"a{j}" for j in range(len(arg_tys))]
+            rec = [n for n, a in zip(names, arg_tys) if "Record<" in a]
+            used = rec or [n for n, a in zip(names, arg_tys) if re.fullmatch(r"T", a)]
+            body = f"{rec[0]} * k + k" if rec else " * ".join(used + ["kn"])
+            shown = [n if n in used else "_" + n for n in names]
+            args.append(f"|{', '.join(shown)}| {body}")
+        elif pty == "Self":
+            args.append("c")
+        elif recv == "&self" and re.fullmatch(r"&mut\s*Record(Tensor|Matrix)<'a,.*>", pty):
+            args.append("&mut c")          # the borrowed-source container is the right hand side
+        elif recv == "&self" and re.fullmatch(r"Record(Tensor|Matrix)<'a,.*>", pty):
+            args.append("c")
+            rebinds = True
+        elif re.fullmatch(r"&\s*Record(Tensor|Matrix)?<'a,.*>", pty):
+            args.append("d")
+        elif re.fullmatch(r"\[Dimension; D\]", pty):
+            args.append("[\"x\", \"y\"]")
+        else:
+            ok = False
+    if not ok:
+        return None
+    call_args = ", ".join(args)
+    if recv == "&self":
+        return kind, (f"let mut c = d.{sig['name']}({call_args});" if rebinds else f"let _ = d.{sig['name']}({call_args});")
+    if recv == "&mut self":
+        return kind, f"let _ = c.{sig['name']}({call_args});"
+    if recv in ("self", "mut self"):
+        return kind, f"let mut c = c.{sig['name']}({call_args});"
+    return kind, f"let mut c = {sig['owner']}::{sig['name']}({call_args});"
+
+
+def three_step_rows(repo):
+    rows, unknown = [], []
+    for sig in scan_mutating_methods(repo):
+        step = synthesize_step(sig)
+        if step is None:
+            unknown.append((sig["file"], f"{sig['owner']}::{sig['name']} (mutating method; signature not understood)"))
+            continue
+        kind, stmt = step
+        for sname, setup, construct in SOURCES[kind]:
+            for ename, ety, extract in EXTRACTS[kind]:
+                body = (f"fn probe<'a>(list: &'a Tape, d: &{KIND[kind][0]}, other: &R<'a>) -> {ety} {{\n"
+                        "    let k: R<'a> = other.clone();\n    let kn: f64 = other.number;\n"
+                        f"    {setup}\n    let mut c = {construct};\n    {stmt}\n    {extract}\n}}\nfn main() {{}}\n")
+                rows.append({"name": f"{sig['owner']}_{sig['name']}_{sig['line']}_{sname}_{ename}", "body": body,
+                             "rule": f"a container built with from_existing over a `{sname}` source, `{sig['owner']}::{sig['name']}` "
+                                     f"({sig['file']}:{sig['line']}) called on it, and the {ename} then taken from it is tied to the "
+                                     "tape only (it leaves the function that owns the borrowed data)"})
+    return rows, unknown
+
+
 def pid(s):
     return re.sub(r"[^A-Za-z0-9]+", "_", s).strip("_")[:140]
 
@@ -479,6 +614,9 @@ def generate(workdir, repo=None):
             emit(f"life_closure_usage_{cl['name']}_{cl['source'].split(':')[1]}",
                  f"[lifetime] documented usage of `{cl['name']}` ({cl['source']}): combine every element with a separately "
                  "created record of the same WengertList", ("compile", []), body, "lifetime.closure-usage")
+    rows3, _unknown3 = three_step_rows(repo)
+    for r3 in rows3:
+        emit(f"life_three_step_{r3['name']}", "[lifetime] " + r3["rule"], ("compile", []), r3["body"], "lifetime.three-step")
     for name, _kind, src in ROUND_TRIPS:
         emit(f"life_{name}", f"[lifetime] {name}", ("compile", []), src + "\nfn main() {}\n", "lifetime.round-trip")
     return rows
@@ -588,7 +726,8 @@ def coverage(repo):
     for cl in rows_auto:
         closure_covered |= set(cl["covers"])
     closure_found = scan_closure_methods(repo)
-    missing = (sorted(found - covered) + sorted(unknown)
+    _rows3, unknown3 = three_step_rows(repo)
+    missing = (sorted(found - covered) + sorted(unknown) + sorted(unknown3)
                + sorted((f, n + " (closure parameter)") for f, n in closure_found - closure_covered))
     return missing, len(found) + len(closure_found)
 
